@@ -491,11 +491,23 @@ def sc_shared(cx, keys, kind, axis, members, variant="plain", n=2):
     if variant == "constraint-on-multi":
         mu.add_multi_constraint(mu.names[0])
     mu.set_point()
+    extra_shared = []
+    if variant == "read-first":
+        # a shared y source first, then results are read (and cached), then the source under test is declared
+        S0 = _shared_source(cx, mu, "SA", "y", members, tag="sh0", name="shared0")
+        extra_shared.append((S0, "y"))
+        mu.mf.cost_function_value
+        mu.mf.total_cov_mat
     S = _shared_source(cx, mu, kind, axis, members)
     if variant == "two-sources":
         # a second shared source on the same axis of the same members: the blocks add up
         S = O.madd(S, _shared_source(cx, mu, "MC" if kind != "MC" else "SAv", axis, members, tag="sh2", name="shared2"))
     gauss, V, r = _joint(mu, S, axis or "y", members)
+    for S_, ax_ in extra_shared:
+        # further shared sources (possibly on another axis): add their blocks
+        _, V_, _ = _joint(mu, S_, ax_, members)
+        _, V0_, _ = _joint(mu, O.zeros(n), ax_, members)
+        V = [[V[i][j] + V_[i][j] - V0_[i][j] for j in range(len(V))] for i in range(len(V))]
     for mn in O.leading_minors(V):
         cx.assume(mn > 0)
     mu.assume_pd()
@@ -625,6 +637,8 @@ def scenarios(tier, seed):
         (["xyab", "xybc"], "SA", "y", [0, 1], "constraint-on-multi"),
         (["xyab", "xybc"], "SA", "y", [0, 1], "disable"),
         (["xyab", "xybc"], "SA", "y", [0, 1], "two-sources"),
+        (["xyab", "xybc"], "SA", "x", [0, 1], "read-first"),
+        (["xyab", "xybc"], "MC", "y", [0, 1], "read-first"),
         (["xyab", "xybc", "idba"], "SAv", "y", [0, 2], "two-sources"),
         (["hist", "xyab", "xybc"], "SAv", "y", [1, 2], "plain"),
         (["xyab", "xybc", "idba"], "SA", "y", [0, 2], "plain"),
@@ -644,6 +658,8 @@ def scenarios(tier, seed):
         for n in (1, 2):
             if n == 1 and len([k for k in keys if M[k][0] in ("xy", "indexed")]) > 3:
                 continue
+            if q and n == 2 and variant == "read-first" and axis == "x":
+                continue  # symbolic minimum over four x uncertainties after a cached read: slow -> thorough tier
             nm = "shared/%s/%s-%s-%s/%s/n%d" % ("+".join(keys), kind, axis, "".join(map(str, members)), variant, n)
             S.append(Scenario(nm, sc_shared, family="shared/%s/%s" % (kind, variant), params=dict(keys=keys, kind=kind, axis=axis, members=members, variant=variant, n=n)))
     S.append(Scenario("twin/shared-cov-is-not-block-diagonal", sc_twin, twin=True))
